@@ -97,7 +97,7 @@ class Pool:
             st = st.clone()
             o = st.find(self.buf_addr[ins.ext])
             for k, v in enumerate(ins.preload):
-                o.cells[8 * k] = (8, v if isinstance(v, Term) else T.R(v))
+                o.cells[8 * k] = (8, v if isinstance(v, Term) else self.ex.dom.const(float(v)))
         rs = self.ex.run(st, 'h_op', self.args_for(ins))
         return rs
 
@@ -207,3 +207,67 @@ def native_replay(program, nslots=3, nbufs=3, sanitize=True, tag='replay'):
     if p.returncode != 0 or 'ERROR: AddressSanitizer' in p.stderr or 'runtime error' in p.stderr or 'LeakSanitizer' in p.stderr:
         report = p.stderr[-1500:]
     return {'steps': steps, 'exit': p.returncode, 'report': report, 'finished': 'done' in p.stdout}
+
+
+def pool_interp_vs_native(chk, programs, nslots=5, nbufs=3):
+    """translation validation for the pool harness: the IR interpreter in concrete-double mode against the g++/ASan build,
+    step by step (return codes, dimensions, component values, buffer contents)"""
+    import random
+    rng = random.Random(chk.seed + 99)
+    for prog in programs:
+        bufs = [[float(rng.randint(-40, 40)) / 8 for _ in range(BUF_DOUBLES)] for _ in range(nbufs)]
+        pool = Pool(nslots=nslots, nbufs=nbufs, domain='C')
+        st = pool.initial(buf_values=bufs)
+        full = []
+        for b in range(nbufs):
+            full += [Ins('EXTERNAL', t=nslots - 1, x=2, ext=b, preload=bufs[b]), Ins('DESTROY', t=nslots - 1)]
+        full += prog
+        res = native_replay(full, nslots=nslots, nbufs=nbufs)
+        chk.cov['interp_vs_native']['cases'] += 1
+        ok = res['report'] is None and len(res['steps']) == len(full)
+        live = [False] * nslots
+        if ok:
+            for n, ins in enumerate(full):
+                rs = pool.step(st, ins)
+                if len(rs) != 1 or rs[0].status != 'ok':
+                    ok = False
+                    break
+                st = rs[0].state
+                obs = res['steps'][n]
+                if rs[0].retval != obs['rc']:
+                    ok = False
+                    break
+                if ins.constructs() and obs['rc'] == 0:
+                    live[ins.t] = True
+                if ins.op == OPS['DESTROY']:
+                    live[ins.t] = False
+                for k in range(nslots):
+                    if not live[k]:
+                        continue
+                    raw = pool.raw(st, k)
+                    o = obs['slots'].get(k)
+                    vals = pool.values(st, k)
+                    if o is None or raw['dim'] != o['dim'] or vals is None or any(v is None or float(v) != w for v, w in zip(vals, o['vals'])):
+                        ok = False
+                for b in range(nbufs if n >= 2 * nbufs else 0):
+                    mine = pool.buffer_values(st, b, 37)
+                    if any(float(v) != w for v, w in zip(mine, obs['bufs'][b])):
+                        ok = False
+                if not ok:
+                    break
+        if not ok:
+            chk.cov['interp_vs_native']['mismatches'] += 1
+            chk.broken_q('pool harness: interpreter and native (ASan) build disagree on %s (%s)' % (' ; '.join(i.describe() for i in prog), (res['report'] or '')[:200]))
+
+
+def sample_programs(dA=2, dB=3):
+    """a few representative histories for the interpreter-vs-native diff"""
+    c = 1.75
+    return [
+        [Ins('EXTERNAL', t=0, x=dA, ext=0), Ins('COPYCON', t=1, s1=0), Ins('EXPR', t=2, s1=0, s2=1, x=96 + 0), Ins('EXPR', t=1, s1=2, s2=0, x=12), Ins('DESTROY', t=2)],
+        [Ins('EXTERNAL', t=0, x=dB, ext=1), Ins('SIZED', t=1, x=dA), Ins('COPYASSIGN', t=1, s1=0), Ins('EXPR', t=1, s1=1, s2=0, x=64 + 10, c=c), Ins('MOVECON', t=2, s1=1), Ins('EQ', t=2, s1=0)],
+        [Ins('FROMLIST', t=0, x=dA * dA, ext=2), Ins('FROMLIST', t=1, x=7, ext=2), Ins('EXPR', t=1, s1=0, s2=0, x=96 + 9, c=c), Ins('PLAININC', t=1, s1=0), Ins('MOVEASSIGN', t=0, s1=1)],
+        [Ins('EXTERNAL', t=0, x=dA, ext=0), Ins('EXTERNAL', t=1, x=dB, ext=1), Ins('EXPR', t=2, s1=0, s2=1, x=96 + 0), Ins('PLAININC', t=0, s1=1), Ins('COPYASSIGN', t=0, s1=1), Ins('FACTORY', t=2, x=(2 << 16) | dB, y=2)],
+        [Ins('SIZED', t=0, x=dB), Ins('FILL', t=0, c=c), Ins('ROTATE', t=0, s1=0, x=0, y=2, c=0.5), Ins('UNARYVIEW', t=0, x=0), Ins('UNARYVIEW', t=0, s1=0, x=2), Ins('COMPONENTS', t=0, ext=2), Ins('SETBACKING', t=0, ext=1)],
+        [Ins('DEFAULT', t=0), Ins('PRINT', t=0), Ins('UNARYVIEW', t=0, x=0), Ins('SIZED', t=1, x=dA), Ins('COPYASSIGN', t=1, s1=0), Ins('CHURN', x=dA, y=34), Ins('ALIGNED', t=2, x=dA, y=1), Ins('CLEARCACHE')],
+    ]
